@@ -4,7 +4,7 @@ CONSTANTS
   OptSet = {0, 1, 2, 3, 4, 5, 6, 7}
   Srcs = {"ops"}
   Texts = {0, 1}
-  ClientOps = {"label", "face_query", "featval", "destroy_fval", "make_font", "destroy_font", "make_seg", "shape", "query_seg", "justify", "destroy_seg"}
+  ClientOps = {"label", "face_query", "featval", "edit_fval", "destroy_fval", "make_font", "destroy_font", "make_seg", "shape", "query_seg", "justify", "destroy_seg"}
   MaxOps = 4
   NameMemo = TRUE
   Emit = TRUE
